@@ -109,6 +109,10 @@ theorem sumE_eval' {o : Ops R} (ho : RingLike o) (l : List E) (env : Nat → R) 
     | nil => simp [sumE]
     | cons b bs => simp only [sumE, E.eval, ho.add, ih, List.map_cons, List.sum_cons]
 
+theorem sumE_eval (l : List E) (env : Nat → R) :
+    (sumE l).eval (ringOps R) env = (l.map (fun e => e.eval (ringOps R) env)).sum :=
+  sumE_eval' ringOps_ringLike l env
+
 /-- identities modulo hypotheses: `a - b = Σ cᵢ (lᵢ - rᵢ)` and every `lᵢ = rᵢ` holds under `env` -/
 theorem polyEqMod_sound {o : Ops R} (ho : RingLike o) {hyps : List (E × E)} {cert : List E} {a b : E}
     (h : polyEqMod hyps cert a b = true) (env : Nat → R)
